@@ -864,6 +864,21 @@ func genField(t *rapid.T, depth int, last bool) F {
 			for i := 0; i < n; i++ {
 				pre.El = append(pre.El, genLeaf(t, f.EK))
 			}
+			if rel := rapid.IntRange(0, 3).Draw(t, "prerelated"); rel > 0 && len(f.El) > 0 {
+				// what the destination held before is RELATED to what arrives: the same elements plus some more,
+				// a prefix of them, or the same with one element replaced
+				pre.El = append([]F{}, f.El...)
+				switch rel {
+				case 1:
+					for i, k := 0, rapid.IntRange(1, 3).Draw(t, "preextra"); i < k; i++ {
+						pre.El = append(pre.El, genLeaf(t, f.EK))
+					}
+				case 2:
+					pre.El = pre.El[:rapid.IntRange(0, len(pre.El)-1).Draw(t, "prekeep")]
+				default:
+					pre.El[rapid.IntRange(0, len(pre.El)-1).Draw(t, "preswap")] = genLeaf(t, f.EK)
+				}
+			}
 			f.Pre = &pre
 			f.SpareCap = rapid.SampledFrom([]int{0, 0, 1, 3, 10}).Draw(t, "spare")
 		}
@@ -871,6 +886,40 @@ func genField(t *rapid.T, depth int, last bool) F {
 		"bool", "byte", "ubyte", "short", "ushort", "int", "long", "float", "double", "varint", "varlong", "position", "angle", "uuid":
 		if rapid.IntRange(0, 2).Draw(t, "pre") != 0 {
 			pre := genLeafLike(t, f)
+			if rel := rapid.IntRange(0, 4).Draw(t, "prerelated"); rel > 0 {
+				// related to what arrives: the arriving text/bytes/words are a proper prefix of the old content, or
+				// the old content is a prefix of them, or they differ in the last unit only, or are equal
+				switch f.K {
+				case "string", "bytearray", "plugin":
+					pre.S = append([]byte{}, f.S...)
+					switch rel {
+					case 1:
+						pre.S = append(pre.S, rapid.SampledFrom([]string{"_bricks", "x", "ister", "\x00", "é"}).Draw(t, "presuffix")...)
+					case 2:
+						if len(pre.S) > 0 {
+							pre.S = pre.S[:rapid.IntRange(0, len(pre.S)-1).Draw(t, "prekeep")]
+						}
+					case 3:
+						if len(pre.S) > 0 && pre.S[len(pre.S)-1] < 0x7e && pre.S[len(pre.S)-1] >= 0x20 {
+							pre.S[len(pre.S)-1]++
+						}
+					}
+				case "bitset":
+					pre.L = append([]int64{}, f.L...)
+					switch rel {
+					case 1:
+						pre.L = append(pre.L, 7, -1)
+					case 2:
+						if len(pre.L) > 0 {
+							pre.L = pre.L[:len(pre.L)-1]
+						}
+					case 3:
+						if len(pre.L) > 0 {
+							pre.L[len(pre.L)-1] ^= 1
+						}
+					}
+				}
+			}
 			f.Pre = &pre
 			f.SpareCap = rapid.SampledFrom([]int{0, 0, 1, 3, 10}).Draw(t, "spare")
 		}
